@@ -417,7 +417,7 @@ Definition v1_extra (st : v1st) : Prop :=
   (forall s, slot_ok s ->
      let off := brd (fst st) (v1_ioff s) 5 in
      off = 0 \/ (60 <= off /\ off + 4 + brd (snd st) off 4 <= blen (snd st))) /\
-  brd (snd st) 24 8 = blen (snd st) /\
+  brd (snd st) 24 8 = blen (snd st) /\ brd (snd st) 16 8 <= blen (snd st) /\
   (forall s a d, slot_ok s -> v1_rec st s = Some (a, d) -> zlen d <= brd (snd st) 8 4).
 
 Definition v1_Inv (st : v1st) : Prop := GInv v1st v1_rec v1_dlen B1 two32 st /\ v1_extra st.
